@@ -168,7 +168,7 @@ add(
     "history workload on one engine under the H1 monitor; reference model = history-free run (fresh engine, fresh sorted nodes)",
     "Seeded 2-8 step histories (set labels / compute / re-compute / set_options / second label set / label objects previously laid out by "
     "another engine / permuted input) are played on one real Force engine; after every compute the (position,width)->(layer,position) map "
-    "must equal that of a fresh engine with the accumulated options on fresh nodes. Held = on the histories played.",
+    "must equal that of a fresh engine with the accumulated options on fresh nodes; a further shard computes the same batch of layouts in fresh processes that differ only in PYTHONHASHSEED and compares them line by line. Held = on the histories played.",
     "Trusted: the history-free run of the same code as reference (the property is history-independence). Proviso of the statement enforced by the generator.",
     "DESIGN.md section 4, C06",
 )
